@@ -29,6 +29,13 @@ func vObserveAll(c *Client) vObservation {
 	if err == nil {
 		o.index = i.Items
 	}
+	if c.tables[vTbl].HasIndex("idx2") {
+		i2, err := c.Scan(vCtx, &dynamodb.ScanInput{TableName: aws.String(vTbl), IndexName: aws.String("idx2")})
+		nd.Assert(err == nil, "observe-index2-scan")
+		if err == nil {
+			o.index = append(o.index, i2.Items...)
+		}
+	}
 	d, err := c.DescribeTable(vCtx, &dynamodb.DescribeTableInput{TableName: aws.String(vTbl)})
 	nd.Assert(err == nil, "observe-describe")
 	if err == nil {
@@ -80,6 +87,15 @@ func VerifC08NoTrace() {
 	n := nd.Param("n", 1)
 	c := vClient(false)
 	nd.Assert(AddIndex(vCtx, c, vTbl, vIdx, "g", "") == nil, "setup-addindex")
+	// a second index: a write is all-or-nothing across *all* indexes, whichever of them rejects the item
+	two := nd.Param("indexes", 1) >= 2
+	bad := "g" // the index key attribute that the failing requests c and d supply with the wrong type
+	if two {
+		nd.Assert(AddIndex(vCtx, c, vTbl, "idx2", "g2", "") == nil, "setup-addindex2")
+		if nd.Choice("ill-typed-index-key", 2) == 1 {
+			bad = "g2"
+		}
+	}
 	for i := 0; i < n; i++ {
 		nm := "k" + string(rune('0'+i))
 		it := vItem{"p": vS(nd.StringN(nm+".p", 1)), "v": vS(nd.StringN(nm+".v", 1))}
@@ -104,12 +120,12 @@ func VerifC08NoTrace() {
 			return e
 		},
 		func() error { // 2: index key attribute of the wrong type, on Put
-			_, e := c.PutItem(vCtx, &dynamodb.PutItemInput{TableName: tbl, Item: vItem{"p": vS(kp), "v": vS(x), "g": vN("1")}})
+			_, e := c.PutItem(vCtx, &dynamodb.PutItemInput{TableName: tbl, Item: vItem{"p": vS(kp), "v": vS(x), bad: vN("1")}})
 			return e
 		},
 		func() error { // 3: index key attribute of the wrong type, on Update
 			_, e := c.UpdateItem(vCtx, &dynamodb.UpdateItemInput{TableName: tbl, Key: vItem{"p": vS(kp)},
-				UpdateExpression: aws.String("SET g = :n, v = :x"), ExpressionAttributeValues: vItem{":n": vN("1"), ":x": vS(x)}})
+				UpdateExpression: aws.String("SET " + bad + " = :n, v = :x"), ExpressionAttributeValues: vItem{":n": vN("1"), ":x": vS(x)}})
 			return e
 		},
 		func() error { // 4: malformed update expression
